@@ -109,7 +109,7 @@ class TlcResult:
 
 
 def tlc(specdir, module, cfg, env=None, workers="auto", timeout=1800, extra=(), keep=None, jvm=None,
-        cfg_text=None, files=None):
+        cfg_text=None, files=None, include=()):
     """Run TLC on a scratch copy of specdir.  cfg is a file name inside specdir, or
     cfg_text gives the configuration verbatim.  files: {name: text} extra files to drop in.
     keep: list of relative file names to copy back out (returned as dict name->path in a temp dir
@@ -117,9 +117,11 @@ def tlc(specdir, module, cfg, env=None, workers="auto", timeout=1800, extra=(), 
     src = os.path.join(VERIF, "spec", specdir)
     work = scratch("tlc-")
     try:
-        for f in os.listdir(src):
-            if f.endswith((".tla", ".cfg")):
-                shutil.copy(os.path.join(src, f), work)
+        for d in list(include) + [specdir]:       # modules of other specification directories that are EXTENDed
+            dd = os.path.join(VERIF, "spec", d)
+            for f in os.listdir(dd):
+                if f.endswith(".tla") or (d == specdir and f.endswith(".cfg")):
+                    shutil.copy(os.path.join(dd, f), work)
         if cfg_text is not None:
             cfg = "_run.cfg"
             open(os.path.join(work, cfg), "w").write(cfg_text)
@@ -196,7 +198,7 @@ def segments(events, key="op", reset="reset"):
     return out
 
 
-def validate(specdir, module, cfg, trace_path, consts=None, timeout=1800, workers=1):
+def validate(specdir, module, cfg, trace_path, consts=None, timeout=1800, workers=1, include=()):
     """Run a trace specification over trace_path; returns (verdict dict, TlcResult).
     The trace spec writes {"events":n,"fails":[[index,why],...],...} to $OUT."""
     out = trace_path + ".verdict.json"
@@ -204,7 +206,7 @@ def validate(specdir, module, cfg, trace_path, consts=None, timeout=1800, worker
         os.remove(out)
     cfg_text = subst_cfg(specdir, cfg, consts) if consts else None
     r = tlc(specdir, module, cfg, env={"TRACE": trace_path, "OUT": out}, workers=workers, timeout=timeout,
-            cfg_text=cfg_text)
+            cfg_text=cfg_text, include=include)
     if not os.path.exists(out):
         raise Infra("trace validation produced no verdict (%s %s):\n%s" % (module, cfg, r.out[-3000:]))
     v = json.load(open(out))
